@@ -121,8 +121,48 @@ def configured_patterns(ctx):
     ctx.floor("split_emit_sites", 1, "emission sites in Util::split")
 
 
+def child_context_summary(ctx):
+    """The rules below trust addChildToCacheAndGet(parent, name) to hand out THE child 'name' of 'parent': every context it returns is
+    the cache entry keyed by the path of the context createChildCgroupCtx(name) opened below the parent's own fd, or by
+    parent.cgroup().getChild(name) - never by the bare name."""
+    P = ctx.prog
+    f = ctx.fn1("Oomd::OomdContext::addChildToCacheAndGet")
+    ctx.anchor(f, "cgroup_ctx", "child")
+    X = Expander(P, f)
+    OWN = "param:cgroup_ctx.createChildCgroupCtx(param:child)->cgroup()"
+    KEYS = (OWN, "param:cgroup_ctx.cgroup().getChild(param:child)")
+    n = 0
+    for i in f.calls("find", "at", "emplace", "try_emplace", "operator[]", "insert", "insert_or_assign", "contains", "count"):
+        if "cgroups_" not in f.text(f.nodes[i].get("recv", -1)) or not f.nodes[i].get("args"):
+            continue
+        n += 1
+        k = X(f.nodes[i]["args"][0])
+        ctx.check(k in KEYS, "child-context-is-the-parents-child:key@%d" % f.nodes[i].get("line", 0), "provenance (cache key)", f.loc(i),
+                  "the context cache is addressed by the child's full path (parent path + name)",
+                  "the context cache is addressed with '%s' in addChildToCacheAndGet: a child NAME that equals the path of another cached cgroup (a container's "
+                  "inner system.slice vs the host's) returns that other cgroup's context, and the kill walks and signals the wrong subtree" % k[:110])
+    for r in returns(f):
+        t = X(f.nodes[r]["val"]) if "val" in f.nodes[r] else ""
+        if t in ("std::nullopt", "{}", ""):
+            continue
+        n += 1
+        ok_ = ("this->cgroups_.emplace(%s, *param:cgroup_ctx.createChildCgroupCtx(param:child))" % OWN) in t or any(("this->cgroups_.find(%s)" % k_) in t or ("this->cgroups_.at(%s)" % k_) in t for k_ in KEYS)
+        ctx.check(ok_, "child-context-is-the-parents-child:return@%d" % f.nodes[r].get("line", 0), "provenance (returned context)", f.loc(r),
+                  "the context returned is the cache entry of the child opened below the parent's fd", "returns " + t[:140])
+    ctx.counters["child_context_sites"] = n
+    ctx.floor("child_context_sites", 2, "cache accesses / value returns in addChildToCacheAndGet")
+    cc = ctx.fn1("Oomd::CgroupContext::createChildCgroupCtx")
+    ctx.use(cc)
+    Xc = Expander(P, cc)
+    opens = [i for i in cc.calls("openChildDir", "Fs::DirFd::openChildDir", "openat", "DirFd::openChildDir")]
+    ctx.check(any("cgroup_dir_" in Xc(cc.nodes[i].get("recv", cc.nodes[i]["args"][0] if cc.nodes[i].get("args") else -1)) or any("cgroup_dir_" in Xc(a) for a in cc.nodes[i].get("args", [])) for i in opens) and bool(opens),
+              "child-context-opened-below-parent-fd", "provenance", cc.loc(), "createChildCgroupCtx opens the child relative to the parent's held directory fd",
+              "createChildCgroupCtx does not open the child relative to cgroup_dir_")
+
+
 def run(ctx):
     configured_patterns(ctx)
+    child_context_summary(ctx)
     # locals / parameters the rules below refer to by name (a rename makes the analysis 'broken', never a violation)
     ctx.anchor(ctx.fn1('Oomd::BaseKillPlugin::tryToKillPids'), 'pids', 'pid')
     ctx.anchor(ctx.fn1('Oomd::BaseKillPlugin::getAndTryToKillPids'), 'target', 'pids', 'line')
